@@ -333,6 +333,22 @@ def resolve_prefer_delete(w):
     World._resolve_conflict(w)
 
 
+def distinct_line(w, author, word):
+    """a line that looks nothing like the generated `L<n> ...` lines (the tracker matches similar lines as edits)"""
+    w.counter += 1
+    t = f"{word} {w.counter * 7919} ~~~~ {word[::-1]} #### {w.counter * 104729}"
+    w.author_of[t] = author
+    return t
+
+
+def append_distinct(w, path, n, word):
+    """a person appends n distinct lines to path"""
+    ls = w.lines(path) or []
+    ls += [distinct_line(w, "H", word) for _ in range(n)]
+    w.write(path, "".join(l + "\n" for l in ls))
+    w.trace.append(("edit", "H", path, "append"))
+
+
 def resolve_by_hand(w, mode):
     """a person resolves a stopped rebase / cherry-pick by typing the file: the upstream side's content, then
     none / some of the lines the commit being applied brought (never all of them: the result is shorter than the
@@ -353,7 +369,7 @@ def resolve_by_hand(w, mode):
         tl = theirs.split("\n")[:-1] if theirs.endswith("\n") else theirs.split("\n")
         brought = [l for l in tl if l not in ol]
         keep = [] if mode == "none" or len(brought) < 2 else brought[:w.r.range(1, max(1, len(brought) // 2))]
-        own = [w.fresh("H")] if mode == "none" or w.r.chance(1, 2) else []
+        own = [distinct_line(w, "H", "resolved by hand")] if mode == "none" or w.r.chance(1, 2) else []
         w.write(p, "".join(l + "\n" for l in ol + keep + own))
         w.realgit("add", "--", p)
 
@@ -513,7 +529,10 @@ def scenario(args):
                     do("edit", lambda: w.op_edit(actor=r.pick(SESSIONS), path=victim, region="bottom", kinds=["ins"]))
                     do("commit")
                 do("switch")
-                do("edit", lambda: w.op_edit(actor=r.pick(["H", "H", "s2"]), path=victim, region="bottom", kinds=["ins"]))
+                if r.chance(2, 3):
+                    do("edit", lambda: append_distinct(w, victim, r.range(1, 2), "upstream tail"))
+                else:
+                    do("edit", lambda: w.op_edit(actor=r.pick(["H", "s2"]), path=victim, region="bottom", kinds=["ins"]))
                 do("commit")
                 final = r.weighted([(6, "rebase"), (4, "cherry_pick")])
                 if final == "rebase":
